@@ -657,7 +657,12 @@ def mon_C12(script, outs):
             if abs(tri - pt) > 4 * step:
                 fails.append((i, "triangle jumped by %r for a phase step of %d/2^24" % (abs(tri - pt), inc)))
                 break
-        prev = (a, sine, tri)
+        if t[0] != "freq":
+            # "between consecutive ticks": a set_frequency between two ticks moves no phase, so the reference stays
+            # the reading after the previous tick (a read-out that changes with the *increment* -- e.g. interpolation
+            # skipped while the increment is a whole number of table cells -- jumps at the `freq` row, not at a tick);
+            # set_phase / reset / new do move the phase and start a new reference
+            prev = (a, sine, tri)
     return fails
 
 
